@@ -102,3 +102,7 @@ End CANON.
 Definition tap_query_ok (genesis : bytes) (annex : option bytes) (leaf : option (bytes * N)) (in_pos : nat) : bool :=
   Nat.eqb (length genesis) 32 && (match annex with Some a => len_ok a | None => true end) &&
   (match leaf with Some (h, pos) => Nat.eqb (length h) 32 && (pos <? 4294967296) | None => true end) && (N.of_nat in_pos <? 4294967296).
+(* side conditions on the non-transaction arguments of a legacy / segwit query *)
+Definition seg_query_ok (pt_ok : bytes -> bool) (script_code : bytes) (amount : cvalue) (ht : N) : bool :=
+  len_ok script_code && wf (c_value pt_ok) amount && (ht <? 4294967296).
+Definition leg_query_ok (script_code : bytes) (ht : N) : bool := len_ok script_code && (ht <? 4294967296).
